@@ -768,6 +768,8 @@ class Gen:
         if k == "scall":
             fs = list(F)
             r.shuffle(fs)
+            if r.random() < 0.5:
+                fs.sort(key=lambda f: not any(ref for (_, ref) in F[f][0]))   # functions with Referenz parameters first
             for f in fs:
                 a = self.args(F, G, F[f][0], 1)
                 if a is not None:
@@ -894,7 +896,7 @@ def run_parsex(px, ddppath, jobs):
     todo = list(jobs)
     while todo:
         inp = "\n".join(json.dumps(dict(id=str(i), file=f, src=s)) for i, f, s in todo) + "\n"
-        p = subprocess.run([px], input=inp, capture_output=True, text=True, env=dict(os.environ, DDPPATH=ddppath), timeout=1200)
+        p = subprocess.run([px], input=inp, capture_output=True, text=True, env=dict(os.environ, DDPPATH=ddppath, GOMAXPROCS="1"), timeout=1200)
         got = 0
         for l in p.stdout.splitlines():
             try:
@@ -920,24 +922,41 @@ def run_model(model, lines):
 QUIRKS = ["void_eq", "void_ret", "tc_by_name", "field_unimported"]
 
 
-def explain(model, p):
-    """which quirks of the algorithm model explain that the ill-formed program p is accepted: smallest set of switches
-    that has to be ON (everything else patched) for check_with to return no diagnostic"""
+def flag_combos():
     import itertools
+    out = []
     for k in (1, 2, 3, 4):
         for combo in itertools.combinations(range(4), k):
-            fl = "".join("1" if i in combo else "0" for i in range(4))
-            out = run_model(model, ["Q %s %s" % (fl, sx(p))])[0].split()
-            if out[2] == "-":
-                return "+".join(QUIRKS[i] for i in combo)
-    return None
+            out.append((combo, "".join("1" if i in combo else "0" for i in range(4))))
+    return out
+
+
+def explain_many(model, progs):
+    """for every ill-formed program the frontend accepts: the smallest set of quirk switches of the algorithm model that has
+    to be ON (everything else patched) for check_with to report nothing; None if even the pinned model rejects it"""
+    combos = flag_combos()
+    lines = ["Q %s %s" % (fl, sx(p)) for p in progs for _, fl in combos]
+    out = run_model(model, lines) if lines else []
+    res = []
+    for i in range(len(progs)):
+        why = None
+        for j, (combo, _) in enumerate(combos):
+            if out[i * len(combos) + j].split()[2] == "-":
+                why = "+".join(QUIRKS[c] for c in combo)
+                break
+        res.append(why)
+    return res
+
+
+def explain(model, p):
+    return explain_many(model, [p])[0]
 
 
 # model diagnostic -> codes of src/ddperror/codes.go the frontend may report first for it
 EXPECT = {
-    "DBadType": {1003, 1000}, "DArticle": {1009}, "DUnknownFun": {1000, 2001, 2012, 3000}, "DBadRef": {1000, 2001, 3005, 1002},
-    "DConstRef": {2034}, "DConstAssign": {2034, 2012}, "DUndef": {2001}, "DNotVar": {2012}, "DDup": {2000, 2007, 2008}, "DBreak": {2017},
-    "DGlobalReturn": {2011}, "DMissingReturn": {2005}, "DImportUndef": {2001}, "DTypeOp": {3000, 3002}, "DTypeCast": {3004},
+    "DBadType": {1003, 1000}, "DArticle": {1009}, "DUnknownFun": {1000, 2001}, "DBadRef": {1000, 2001},
+    "DConstRef": {2034}, "DConstAssign": {2034}, "DUndef": {2001}, "DNotVar": {2012}, "DDup": {2000, 2008}, "DBreak": {2017},
+    "DGlobalReturn": {2011}, "DMissingReturn": {2005}, "DImportUndef": {2001}, "DTypeOp": {3000}, "DTypeCast": {3004},
     "DNoField": {3010}, "DPrivField": {3011}, "DTypeArg": {3000}, "DTypeInit": {3001}, "DTypeAssign": {3001}, "DTypeCond": {3007},
     "DTypeFor": {3008}, "DTypeRet": {3009}, "DPanic": {-1},
 }
@@ -987,11 +1006,73 @@ def work_chunk(args):
         it["dir"] = mdir
         it["idx"] = idx
         it["modtext"] = None
-        if it["kind"] == "base" or it["acc"] or it["pywf"] or it["wfb"] or it["check"] == "-" or i % 40 == 0:
+        if it["kind"] == "base" or it["acc"] or it["pywf"] or it["wfb"] or it["check"] == "-" or it["patched"] == "-" or i % 40 == 0:
             it["modtext"] = modtext                 # anything that may need a replay keeps its module and AST
         else:
             it["ast"] = None                        # most rejected mutants are only counted
             it["obs"] = None
+    return items
+
+
+# ---- exhaustive operator x operand-type grid (ties the transcribed operator tables of the typechecker) ----------
+GRID_MOD = [["istruct", 1, 1, "der", [[1, 2, "Z"]]], ["ivar", 1, 10, ["S", 1]]]
+GRID_OPERANDS = [("Z", ["var", 50]), ("K", ["var", 51]), ("B", ["var", 52]), ("W", ["var", 53]), ("C", ["var", 54]), ("T", ["var", 55]),
+                 ("LZ", ["var", 56]), ("LT", ["var", 57]), ("S", ["var", 10]), ("void", ["call", 60])]
+GRID_DECL_TYPES = ["Z", "K", "B", "W", "C", "T", ["L", "Z"], ["L", "T"]]
+
+
+def grid_prelude():
+    return [["stmt", ["svar", "die", "Z", 50, ["lit", "lz"]]], ["stmt", ["svar", "die", "K", 51, ["lit", "lk"]]],
+            ["stmt", ["svar", "der", "B", 52, ["cast", ["lit", "lz"], "B"]]], ["stmt", ["svar", "der", "W", 53, ["lit", "lb"]]],
+            ["stmt", ["svar", "der", "C", 54, ["lit", "lc"]]], ["stmt", ["svar", "der", "T", 55, ["lit", "lt"]]],
+            ["stmt", ["svar", "die", ["L", "Z"], 56, ["empty", "Z"]]], ["stmt", ["svar", "die", ["L", "T"], 57, ["empty", "T"]]],
+            ["fun", 60, ["params"], ["ret", "none"], ["blk", ["svar", "die", "Z", 61, ["lit", "lz"]]]]]
+
+
+def grid_cells(all_decl_types):
+    """every unary / binary operator and cast of the core on every combination of operand kinds"""
+    exprs = []
+    for o in ("not", "neg", "len"):
+        for ka, a in GRID_OPERANDS:
+            exprs.append(("un %s %s" % (o, ka), ["un", o, a]))
+    for o in BIN_TXT:
+        for ka, a in GRID_OPERANDS:
+            for kb, b2 in GRID_OPERANDS:
+                exprs.append(("bin %s %s %s" % (o, ka, kb), ["bin", o, a, b2]))
+    for ka, a in GRID_OPERANDS:
+        for t in GRID_DECL_TYPES + [["S", 1]]:
+            exprs.append(("cast %s->%s" % (ka, sx(t)), ["cast", a, t]))
+    spec = Spec(GRID_MOD)
+    G = [{10: ("var", ["S", 1]), 1: ("struct", None), 50: ("var", "Z"), 51: ("var", "K"), 52: ("var", "B"), 53: ("var", "W"), 54: ("var", "C"),
+          55: ("var", "T"), 56: ("var", ["L", "Z"]), 57: ("var", ["L", "T"]), 60: ("fun", None)}]
+    F = {60: ([], None)}
+    cells = []
+    for name, e in exprs:
+        t = spec.type_of(F, G, e)
+        if all_decl_types:
+            tds = GRID_DECL_TYPES + ([t] if t is not None and t not in GRID_DECL_TYPES else [])
+        else:
+            # an ill-typed cell is declared with the type the operator would produce, so that only the operand types decide
+            guess = e[2] if e[0] == "cast" else ("W" if e[1] in ("not", "lt", "gt", "eq", "ne", "and", "or") else "K" if e[1] == "durch" else "Z")
+            if is_struct(guess):
+                guess = "Z"
+            tds = [t if t is not None else guess]
+        for td in tds:
+            p = ["prog", ["mod"] + GRID_MOD, ["all"], ["tops"] + grid_prelude() + [["stmt", ["svar", spec.gender(td), td, 70, e]]]]
+            cells.append(("%s as %s" % (name, sx(td)), p))
+    return cells
+
+
+def work_grid(args):
+    cells, mdir, px, ddppath, model = args
+    lines = run_model(model, ["C " + sx(p) for _, p in cells])
+    raw = []
+    for (name, p), l in zip(cells, lines):
+        f = l.split()
+        raw.append("M grid:%s -1 %s %s %s %s" % (name.replace(" ", "_"), f[1], f[2], f[3], sx(p)))
+    items = work_chunk((-2, GRID_MOD, mdir, raw, px, ddppath))
+    for it in items:
+        it["kind"] = "grid"
     return items
 
 
@@ -1032,8 +1113,7 @@ def main():
     ]
     okn, lg = b.ensure_native()
     px, lg2 = b.ensure_go("parsex")
-    if os.environ.get("C04_NOCOQ") != "1":
-        ck.coq()
+    ck.coq()
     model = vlib.model_bin("c04")
     if not px:
         ck.violation("harness-build", "parsex does not build against /repo: " + lg2[-500:], dict(log=lg2[-3000:]), no_input=True)
@@ -1042,7 +1122,7 @@ def main():
         ck.broken_obligation("extracted model driver extract/_build/c04 missing (make -C /verif setup)", "")
         ck.finish()
     scratch = vlib.scratch()
-    nprog = 10 if ck.quick else 36
+    nprog = 5 if ck.quick else 36
     t0 = time.time()
 
     # ---- 1. corpus of past / hand-written cases first ----------------------------------------
@@ -1052,6 +1132,11 @@ def main():
         for fn in sorted(os.listdir(cdir)):
             if fn.endswith(".json"):
                 corpus.append((fn, json.load(open(os.path.join(cdir, fn)))))
+    if ck.replay:
+        rp = json.load(open(ck.replay))
+        core = (rp.get("replay") or rp).get("core_program") or rp.get("prog")
+        corpus = [("replay", dict(name="replay:" + os.path.basename(ck.replay), prog=core))]
+        nprog = 0
     results = []
     for ci, (fn, c) in enumerate(corpus):
         p = parse_sx(c["prog"])
@@ -1073,6 +1158,7 @@ def main():
     gstats = {}
     with ProcessPoolExecutor(max_workers=vlib.NCPU) as ex:
         gens = list(ex.map(work_gen, [(i, seeds[i], model, scratch) for i in range(nprog)]))
+        log("[c04] %d base programs, %d mutants from the Coq injector in %.0fs" % (nprog, sum(len(g[3]) - 1 for g in gens), time.time() - t0))
         chunks = []
         for idx, mod, mdir, raw, st in gens:
             for k, v in st.items():
@@ -1081,16 +1167,29 @@ def main():
                 chunks.append((idx, mod, mdir, raw[j:j + 250], px, b.dir))
         for out in ex.map(work_chunk, chunks):
             results += out
+        # exhaustive operator grid
+        gdir = os.path.join(scratch, "grid")
+        os.makedirs(gdir, exist_ok=True)
+        with open(os.path.join(gdir, "modul.ddp"), "w") as fh:
+            fh.write(render_module(GRID_MOD))
+        cells = [] if ck.replay else grid_cells(not ck.quick)
+        n_grid = len(cells)
+        for out in ex.map(work_grid, [(cells[j:j + 200], gdir, px, b.dir, model) for j in range(0, len(cells), 200)]):
+            results += out
     log("[c04] %d programs parsed by the real frontend in %.0fs" % (len(results), time.time() - t0))
 
     # ---- 3. triage -----------------------------------------------------------------------------------
     per_fault = {}
+    grid_stats = dict(accepted=0, rejected=0, well_formed=0, ill_formed=0)
     codes = {}
     first_diag_tab = {}
     first_diag_bad = []
     n_base_ok = n_false_reject = 0
     mismatch = []
     viol_seen = {}
+    acc_ill = [it for it in results if it["acc"] and not it["pywf"] and it["pywf"] == it["wfb"]]
+    for it, why in zip(acc_ill, explain_many(model, [it["ast"] for it in acc_ill])):
+        it["why"] = why
     for it in results:
         ck.count()
         kind, fault = it["kind"], it["fault"]
@@ -1100,6 +1199,9 @@ def main():
                                  json.dumps(dict(prog=sx(it["ast"]) if it["ast"] else None, source=it["src"])))
             continue
         model_acc = it["check"] == "-"
+        if kind == "grid":
+            grid_stats["accepted" if it["acc"] else "rejected"] += 1
+            grid_stats["well_formed" if specwf else "ill_formed"] += 1
         if kind == "mutant":
             st = per_fault.setdefault(fault, dict(mutants=0, rejected=0, accepted=0))
             st["mutants"] += 1
@@ -1117,18 +1219,25 @@ def main():
                 n_false_reject += 1
         # the property: ill-formed => rejected
         if not specwf and it["acc"]:
-            why = explain(model, it["ast"])
+            why = it["why"]
             key = "accepted-ill-formed quirk=%s" % why if why else "accepted-ill-formed unexplained fault=%s" % fault
             if key not in viol_seen:
                 ast = it["ast"]
-                if not why:
-                    mod = ast[1][1:]
-                    def bad(q, mod=mod, it=it):
-                        if Spec(mod).wf(q):
-                            return False
-                        return accepted(run_parsex(px, b.dir, [(0, os.path.join(it["dir"], "main.ddp"), render_main(q))])[0])
-                    ast = shrink(ast, bad)
+                mod = ast[1][1:]
+                def bad(q, mod=mod, it=it):
+                    if Spec(mod).wf(q):
+                        return False
+                    return accepted(run_parsex(px, b.dir, [(0, os.path.join(it["dir"], "main.ddp"), render_main(q))])[0])
+                small = shrink(ast, bad)
+                if explain(model, small) == why:
+                    ast = small
                 viol_seen[key] = True
+                if not why and not ck.replay:
+                    # persist the minimised failure: it runs first from now on
+                    os.makedirs(cdir, exist_ok=True)
+                    cf = os.path.join(cdir, "auto_%s.json" % hashlib.sha1(sx(ast).encode()).hexdigest()[:10])
+                    with open(cf, "w") as fh:
+                        json.dump(dict(name="auto: " + key, note="minimised failure found by the check", prog=sx(ast)), fh, indent=1, ensure_ascii=False)
                 ck.violation(key, "the frontend accepts a program that is ill-formed by the specification (fault class %s): no error-level diagnostic, module not Faulty" % fault,
                              dict(fault=fault, mutant_index=it["site"], source=render_main(ast), module_source=it["modtext"], core_program=sx(ast),
                                   model_check=it["check"], model_check_patched=it["patched"], specification="ill-formed (Python oracle and Coq wfb)",
@@ -1150,12 +1259,30 @@ def main():
             codes[it["code"]] = codes.get(it["code"], 0) + 1
             if it["line"] > 2 and kind == "mutant":
                 ck.nontrivial(hashlib.sha1(it["src"].encode()).hexdigest())
-    for it in mismatch[:1]:
-        if not ck.violations:
-            ck.broken_obligation("correspondence algorithm model (MiniCheck.check) <-> frontend fails: model %s, frontend %s (%s %s #%d)" %
-                                 ("accepts" if it["check"] == "-" else "rejects with " + it["check"], "accepts" if it["acc"] else "rejects with code %s" % it["code"],
-                                  it["kind"], it["fault"], it["site"]),
-                                 json.dumps(dict(source=it["src"], module=it["modtext"], prog=sx(it["ast"]) if it["ast"] else None), ensure_ascii=False))
+    # Which variant of the algorithm model is the frontend?  `pinned` (all four quirks) is the tree the theorems
+    # C04_check_sound_refuted/_partial describe; after (some of) the proposed patches it is check_with of another
+    # switch setting, which C04_check_with_sound / C04_check_with_complete cover for EVERY setting.  A frontend that
+    # agrees with no setting at all is a broken correspondence.
+    variant = "1111"
+    if mismatch:
+        probe = [it for it in results if it["ast"] is not None and ((it["check"] == "-") != (it["patched"] == "-") or it in mismatch)]
+        settings = ["".join("1" if (k >> i) & 1 else "0" for i in range(4)) for k in range(15, -1, -1)]
+        out = run_model(model, ["Q %s %s" % (fl, sx(it["ast"])) for it in probe for fl in settings])
+        ok = []
+        for j, fl in enumerate(settings):
+            if all((out[i * 16 + j].split()[2] == "-") == it["acc"] for i, it in enumerate(probe)) and all(m["ast"] is not None for m in mismatch):
+                ok.append(fl)
+        if ok:
+            variant = ok[0]
+            log("[c04] the frontend no longer behaves as the pinned model; it agrees with check_with(void_eq,void_ret,tc_by_name,field_unimported = %s) on all %d programs" % (variant, len(results)))
+            mismatch = []
+        else:
+            it = mismatch[0]
+            if not ck.violations:
+                ck.broken_obligation("correspondence algorithm model (MiniCheck.check_with, any switch setting) <-> frontend fails: pinned model %s, frontend %s (%s %s #%d)" %
+                                     ("accepts" if it["check"] == "-" else "rejects with " + it["check"], "accepts" if it["acc"] else "rejects with code %s" % it["code"],
+                                      it["kind"], it["fault"], it["site"]),
+                                     json.dumps(dict(source=it["src"], module=it["modtext"], prog=sx(it["ast"]) if it["ast"] else None), ensure_ascii=False))
     if first_diag_bad and not ck.violations and not mismatch:
         d0, code, src = first_diag_bad[0]
         ck.broken_obligation("first diagnostic differs in kind: model %s, frontend code %s (%d cases)" % (d0, code, len(first_diag_bad)), src)
@@ -1202,7 +1329,9 @@ def main():
         corpus=len(corpus), mutants=nm, per_fault=per_fault, first_error_codes={str(k): v for k, v in sorted(codes.items(), key=lambda kv: str(kv[0]))},
         first_diagnostic_model_vs_frontend={k: {str(c): n for c, n in v.items()} for k, v in first_diag_tab.items()},
         first_diagnostic_kind_disagreements=len(first_diag_bad), acceptance_disagreements_model_vs_frontend=len(mismatch),
-        kddp=kres, exhaustive=False,
+        model_variant_matching_the_frontend=dict(zip(QUIRKS, variant)),
+        kddp=kres, operator_grid=dict(cells=n_grid, **grid_stats),
+        exhaustive="operator grid: every unary/binary operator and cast of the core x 10 operand kinds (6 primitive types, 2 list types, Kombination, call without result)%s" % ("" if ck.quick else " x 8 declared result types"),
         exhaustive_note="ALL single-fault mutants (16 classes, every site the injector of coq/Lang/MiniMutate.v finds) of every generated base program are run; base programs are random",
         rule="evaluations = programs parsed by the real frontend (+ kddp runs); non-trivial = a mutant whose first error is reported after line 2 "
              "(the frontend accepted a non-empty prefix), distinct by source text",
